@@ -21,6 +21,7 @@ from fractions import Fraction
 
 from corr.harness import COQ, VERIF, REPO, coq_build, run_model, _run, exc_name
 from checks.c11 import enc_float
+from checks import xmltree_phase
 
 TB = [
     "tx/tx_c09.py (enumeration of settable properties, attribute declarations recovered from property closures, enumeration tables) and tx/tx_c11.py + tx/pyshallow.py (translated simple-type code)",
@@ -1855,7 +1856,7 @@ def run(ck, tier, rng):
             return ck.finish("translator failed", TB, ASSUME)
         ck.notes.append(out.strip().split("\n")[-1])
     meta = json.load(open(os.path.join(COQ, "gen", "c09_meta.json")))
-    ck.build = coq_build("C09", extra_targets=["gen/GenC11.vo", "gen/GenC09.vo", "model/PropsRun.vo"])
+    ck.build = coq_build("C09", extra_targets=["gen/GenC11.vo", "gen/GenC09.vo", "model/PropsRun.vo", "proofs/XmlTree_proofs.vo", "extract/Extract_XmlTree.vo"])
     recover_assumptions(ck.build, "C09")
     for u in meta["unmodelled"]:
         ck.violation("unmodelled:" + u[:100], "translator met a construct outside the model: " + u,
@@ -2107,6 +2108,11 @@ def run(ck, tier, rng):
                          "the model finds a refused assignment to %s after which its getter raises (Diag_C09, C09_breaking_witness_sound) but no such assignment was reproduced on the implementation" % cn,
                          {"theorem_or_correspondence": "C09_no_unknown_breaking", "property": cn}, concrete=False)
 
+    # ---- save / re-open of ANY part: the generic tree codec of model/XmlTree.v tied to lxml (klass xml-codec)
+    xml_codec = xmltree_phase.codec_phase(ck, tier, rng, run_model) if ck.build.ok else {"ran": False}
+    from checks import c09_sweeps
+    sweeps = {"adjustments": c09_sweeps.adjustment_sweep(ck), "collections": c09_sweeps.collection_sweep(ck, rng, 12 if tier == "quick" else 60)}
+
     any_concrete = any(v["concrete"] for v in ck.violations)
     if diffs and not any_concrete:
         ck.violation("correspondence",
@@ -2127,6 +2133,7 @@ def run(ck, tier, rng):
                "model_getter_breaking_not_reproduced": unreplayed,
                "rejected_with_residue": sorted(stats.get("rejected_with_residue", ())),
                "rejected_lost_own_value": sorted(stats.get("rejected_lost_own_value", ())),
+               "xml_tree_codec": xml_codec, "sweeps": sweeps,
                "counts": {k_: v_ for k_, v_ in stats.items() if not isinstance(v_, set)}, "correspondence_diffs": diffs, "histories": len(cases), "exhaustive": False})
 
 
